@@ -6,7 +6,7 @@ package wire
 
 import (
 	"crypto/hmac"
-	"crypto/md5" //nolint:gosec
+	"crypto/md5"  //nolint:gosec
 	"crypto/sha1" //nolint:gosec
 	"encoding/binary"
 	"errors"
